@@ -258,6 +258,10 @@ public:
     bool is_true() const;
     int get_precedence() const;
     friend std::ostream& operator<<(std::ostream& o, const UTAP::expression_t& e) { return o << e.str(); }
+#ifdef UTAP_VERIF
+    /** verification hook: number of sub-expressions actually stored (get_size() reports a per-kind table value) */
+    size_t verif_sub_size() const;
+#endif
 
 private:
     std::ostream& print_bound_type(std::ostream& os, expression_t e) const;
